@@ -53,6 +53,7 @@ def check(ctx):
     # occurrences count: no set / dict keyed by the species stands between a reactant list and the terms built from it
     from ..multiplicity import rule as multiplicity_rule
     multiplicity_rule(ctx, "R10", ['ode'], "the modifier term")
+    _r11_name_tokenizers(ctx)
 
 
 # ------------------------------------------------------------------ R6  command line: every term is accumulated
@@ -197,8 +198,32 @@ def _r7(ctx):
                                 if whole:
                                     ctx.ok("R7", key, (f, ch.lineno), "the whole table is stored (copy)")
                                 elif isinstance(val, ast.Call) and _package_helper(pkg, f, qual.split(".")[0] if "." in qual else None, val) is not None and not isinstance(ch, ast.AugAssign):
-                                    # a helper of the package with statements of its own: what it returns is not followed here
-                                    ctx.unrec("R7", key, (f, ch.lineno), f"the table is stored through the helper `{ast.unparse(val.func)}(..)`, whose body this rule cannot reduce to an expression")
+                                    # a helper of the package with statements of its own: judged by what each of its returns hands back
+                                    callee = _package_helper(pkg, f, qual.split(".")[0] if "." in qual else None, val)[0]
+                                    verdicts = []
+                                    for r_ in [x for x in ast.walk(callee) if isinstance(x, ast.Return) and x.value is not None]:
+                                        rv = r_.value
+                                        if _whole_copy(rv) or ast.unparse(rv) in ("{}", "dict()"):
+                                            verdicts.append(("ok", r_))
+                                        elif isinstance(rv, (ast.DictComp, ast.ListComp)) and len(rv.generators) == 1:
+                                            g_ = rv.generators[0]
+                                            if g_.ifs:
+                                                verdicts.append(("filtered", r_))
+                                            elif isinstance(rv, ast.DictComp) and isinstance(rv.value, ast.Name) and re.fullmatch(r"(int|str)\(\w+\)|\w+", ast.unparse(rv.key)):
+                                                verdicts.append(("ok", r_))
+                                            else:
+                                                verdicts.append(("unknown", r_))
+                                        else:
+                                            verdicts.append(("unknown", r_))
+                                    flt = [r_ for v_, r_ in verdicts if v_ == "filtered"]
+                                    if flt:
+                                        ctx.bad("R7", key, (f, flt[0].lineno), f"the table is stored through `{ast.unparse(val.func)}(..)`, which DROPS entries (`{ast.unparse(flt[0].value)[:80]}`): a modifier "
+                                                "whose value is falsy -- the number 0 that switches a reaction off -- never reaches the generator, and the reaction keeps its tabulated rate",
+                                                expected="every entry of the table received", found=ast.unparse(flt[0].value)[:120])
+                                    elif verdicts and all(v_ == "ok" for v_, _ in verdicts):
+                                        ctx.ok("R7", key, (f, ch.lineno), f"`{ast.unparse(val.func)}(..)` hands back the whole table on every return")
+                                    else:
+                                        ctx.unrec("R7", key, (f, ch.lineno), f"the table is stored through the helper `{ast.unparse(val.func)}(..)`, whose body this rule cannot reduce to an expression")
                                 else:
                                     ctx.bad("R7", key, (f, ch.lineno), ("the network's modifier table is replaced by a rewritten one" if not owner_self else "the stored modifier table is not the whole table given") +
                                             ": entries the user supplied can vanish between the configuration file and the generator (keys are matched against idxfromfile only inside "
@@ -715,3 +740,44 @@ BENIGN = [
     {"name": "init-loops-over-option-directly", "file": INIT, "old": '        ode_modifier_str = self.option("ode-modifier")\n        ode_modifier = {}\n        for l in ode_modifier_str:\n', "new": '        ode_modifier = {}\n        for l in self.option("ode-modifier"):\n'},
     {"name": "rename-loop-var", "file": T, "old": "for sname, expr in ode_modifier.items():\n            spec = Species(sname, **species_kwargs)", "new": "for target, expr in ode_modifier.items():\n            spec = Species(target, **species_kwargs)"},
 ]
+
+
+# ------------------------------------------------------------------ R11  species names are cut at separators, never by a character class that lacks a name character
+
+def _r11_name_tokenizers(ctx):
+    """A species name may contain letters, digits, `+` and `-` (charges, the c- / l- isomer labels), `#` `@` `*`.  Where the command line
+    splits a list of species with a regular expression that MATCHES names (re.findall over a character class), the class must contain
+    the sign characters -- otherwise `H-` is read as `H`, `c-C3H2` as `c` and `C3H2`, silently."""
+    import re._parser as sre
+    pkg = package(ctx.tree)
+    n = 0
+    for f in (INIT, "naunet/console/commands/render.py", "naunet/console/commands/extend.py", "naunet/console/commands/example.py"):
+        if f not in pkg.modules:
+            continue
+        for c in ast.walk(pkg.modules[f]):
+            if not (isinstance(c, ast.Call) and isinstance(c.func, ast.Attribute) and c.func.attr in ("findall", "finditer", "compile", "match", "fullmatch", "search") and c.args
+                    and isinstance(c.args[0], ast.Constant) and isinstance(c.args[0].value, str)):
+                continue
+            pat = c.args[0].value
+            try:
+                tree = sre.parse(pat)
+            except Exception:
+                continue
+            for op, av in tree:
+                if str(op) not in ("MAX_REPEAT", "MIN_REPEAT") or len(av[2]) != 1 or str(av[2][0][0]) != "IN":
+                    continue
+                items = av[2][0][1]
+                if any(str(o) == "NEGATE" for o, _ in items):
+                    continue                      # a separator class ([^,;]+): names are cut at separators, which is the safe way
+                wordy = any(str(o) == "CATEGORY" and "WORD" in str(a) for o, a in items) or any(str(o) == "RANGE" and chr(a[0]).isalpha() for o, a in items)
+                if not wordy:
+                    continue
+                lits = {chr(a) for o, a in items if str(o) == "LITERAL"}
+                n += 1
+                missing = [ch for ch in "+-" if ch not in lits]
+                ctx.check(not missing, "R11", f"{f.rsplit('/', 1)[1]}:name tokenizer {pat!r}", (f, c.lineno),
+                          "the character class of the name tokenizer contains the sign characters" if not missing else
+                          f"species names are matched with the class {pat!r}, which lacks {missing}: an anion `H-`, `C-` or an isomer `c-C3H2` in a dependency / species list is "
+                          "cut at the sign and silently becomes another species (`H`, `C`, `c` + `C3H2`)", expected="split at the separators, or a class containing + and -", found=pat)
+    ctx.check(True, "R11", "name tokenizers scanned", (INIT, 0), f"{n} name-matching character classes in the command modules")
+
